@@ -217,6 +217,10 @@ mut("c04-mul-in-context64", ["C04"], "C04.operator-wiring", (R, "\treturn newDec
 mut("c04-whole-float-shortcut", ["C04"], "C04.no-binary-float", (R, "\tcase float64:\n\t\t// 避免精度损失\n", "\tcase float64:\n\t\tif n == float64(int64(n)) {\n\t\t\treturn newDecimalBig().SetMantScale(int64(n), 0), nil\n\t\t}\n\t\t// 避免精度损失\n"))
 mut("c11-null-accepted-for-slices", ["C11"], "C11.converter-result", (R, "\tsourceValue := reflect.ValueOf(source)\n", "\tsourceValue := reflect.ValueOf(source)\n\tif !sourceValue.IsValid() {\n\t\treturn nil, nil\n\t}\n"))
 
+mut("c18-roundbank-threshold-fifty", ["C18"], "C18.round-direction", (R, "func funRoundBank(v *decimal.Big) (*decimal.Big, error) {\n\t// the 34-digit context rounds half to even\n\treturn newDecimalBig().Copy(v).RoundToInt(), nil\n}", "func funRoundBank(v *decimal.Big) (*decimal.Big, error) {\n\tmv := newDecimalBig().Rem(v, decimal.New(1, 0))\n\tif mv.Cmp(decimal.New(5, -1)) <= 0 {\n\t\treturn funCeil(v)\n\t}\n\treturn funFloor(v)\n}"))
+mut("c18-roundbank-direction-inverted", ["C18"], "C18.round-direction", (R, "func funRoundBank(v *decimal.Big) (*decimal.Big, error) {\n\t// the 34-digit context rounds half to even\n\treturn newDecimalBig().Copy(v).RoundToInt(), nil\n}", "func funRoundBank(v *decimal.Big) (*decimal.Big, error) {\n\tmv := newDecimalBig().Rem(v, decimal.New(1, 0))\n\tif mv.Cmp(decimal.New(5, 1)) < 0 {\n\t\treturn funCeil(v)\n\t}\n\treturn funFloor(v)\n}"))
+mut("c16-zero-map-entry-is-null", ["C16"], "C16.kinds", (R, "\t\tif !mv.IsValid() {\n\t\t\treturn nil, nil\n\t\t}", "\t\tif !mv.IsValid() || mv.IsZero() {\n\t\t\treturn nil, nil\n\t\t}"))
+
 # ---------------- C20 ----------------
 mut("c20-setthis-merges", ["C20"], "C20.nil-map", (R, "func (r *Runner) SetThis(m map[string]interface{}) {\n\tr.this = m\n}", "func (r *Runner) SetThis(m map[string]interface{}) {\n\tif r.this == nil {\n\t\tr.this = map[string]interface{}{}\n\t}\n\tfor k, v := range m {\n\t\tr.this[k] = v\n\t}\n}"))
 mut("c20-first-entry-dropped", ["C20"], "C20.nil-map", (R, "\tif r.this == nil {\n\t\tr.this = map[string]interface{}{}\n\t}\n\tr.this[key] = value", "\tif r.this == nil {\n\t\tr.this = map[string]interface{}{}\n\t\treturn\n\t}\n\tr.this[key] = value"))
@@ -259,6 +263,8 @@ ben("b-hex-escape-parse-uint", ["C13"], (S, "\t\tvalue, err := strconv.ParseInt(
 ben("b-endwith-lastindex-guarded", ["C17"], (R, "return strings.HasSuffix(s, substr), nil", "if len(substr) > len(s) {\n\t\treturn false, nil\n\t}\n\treturn strings.LastIndex(s, substr) == len(s)-len(substr), nil"))
 ben("b-mul-as-context128-method", ["C04"], (R, "\treturn newDecimalBig().Mul(n1, n2), nil", "\tresult := newDecimalBig()\n\tdecimal.Context128.Mul(result, n1, n2)\n\treturn result, nil"))
 ben("b-max-by-index", ["C18", "C03"], (R, "\tmax := nums[0]\n\tfor _, v := range nums {\n\t\tif v.Cmp(max) > 0 {\n\t\t\tmax = v\n\t\t}\n\t}\n\treturn max, nil", "\tbest := 0\n\tfor i := 1; i < len(nums); i++ {\n\t\tif nums[i].Cmp(nums[best]) > 0 {\n\t\t\tbest = i\n\t\t}\n\t}\n\treturn nums[best], nil"))
+ben("b-roundbank-by-halves", ["C18"], (R, "func funRoundBank(v *decimal.Big) (*decimal.Big, error) {\n\t// the 34-digit context rounds half to even\n\treturn newDecimalBig().Copy(v).RoundToInt(), nil\n}", "func funRoundBank(v *decimal.Big) (*decimal.Big, error) {\n\tmv := newDecimalBig().Rem(newDecimalBig().Abs(v), decimal.New(1, 0))\n\tif c := mv.Cmp(decimal.New(5, 1)); c == 0 {\n\t\treturn newDecimalBig().Copy(v).RoundToInt(), nil\n\t} else if (c < 0) == (v.Sign() >= 0) {\n\t\treturn funFloor(v)\n\t}\n\treturn funCeil(v)\n}"))
+ben("b-map-missing-by-kind-invalid", ["C16"], (R, "\t\tif !mv.IsValid() {\n\t\t\treturn nil, nil\n\t\t}", "\t\tif mv.Kind() == reflect.Invalid {\n\t\t\treturn nil, nil\n\t\t}"))
 ben("b-line-starts-switch-to-if", ["C15", "C01"], (S, "\t\tdefault:\n\t\t\tif ch > unicode.MaxASCII && IsLineBreak(ch) {", "\t\tdefault:\n\t\t\tif IsLineBreak(ch) && ch > unicode.MaxASCII {"))
 
 os.makedirs("/verif/selftest", exist_ok=True)
